@@ -145,6 +145,18 @@ ADefault(t) ==
   /\ last' = [act |-> "Default", type |-> t, expect |-> [res |-> "Ok", bytes |-> IF Types[t].secret THEN "Err" ELSE "Ok"]]
   /\ phase' = "judged" /\ UNCHANGED wire
 
+\* constant-time selection (subtle::ConditionallySelectable) of the 12 types that offer it: between two values
+\* of one variant, choice 0 gives the first and choice 1 the second - whole values, label included; the derived
+\* conditional_assign / conditional_swap follow.  (Between different variants the library panics by documented
+\* contract; that is not an action of the model.)
+Selectable == {"PublicKey", "MultiPublicKey", "ProofOfPossession", "Signature", "AggregateSignature", "MultiSignature",
+               "ProofCommitment", "ProofOfKnowledge", "ProofOfKnowledgeTimestamp", "SignatureShare", "PublicKeyShare",
+               "ElGamalCiphertext"}
+ASelect(t, var, ch) ==
+  /\ phase = "idle" /\ t \in Selectable /\ var \in Types[t].variants /\ ch \in {0, 1}
+  /\ last' = [act |-> "Select", type |-> t, variant |-> var, choice |-> ch, expect |-> [res |-> "Ok", pick |-> IF ch = 0 THEN "a" ELSE "b"]]
+  /\ phase' = "judged" /\ UNCHANGED wire
+
 AReset == phase = "judged" /\ phase' = "idle" /\ wire' = NoWire /\ last' = Quiet
 
 VClassOk(t, vc) ==
@@ -159,6 +171,7 @@ Next ==
   \/ (phase = "idle" /\ \E t \in TypeNames, c \in Codecs : \E v \in Types[t].variants, vc \in {x \in VClasses : VClassOk(t, x)} : AEncode(t, c, v, vc))
   \/ (phase = "wire" /\ \E m \in Mutations(wire.type, wire.codec) : (wire.vclass = "generic" \/ m.kind = "none") /\ ADecode(m))
   \/ (phase = "idle" /\ \E t \in TypeNames : ADefault(t))
+  \/ (phase = "idle" /\ \E t \in Selectable : \E var \in Types[t].variants, ch \in {0, 1} : ASelect(t, var, ch))
   \/ (phase = "idle" /\ \E orv \in 0..255, site \in {"sk_be", "sk_le", "sk_try_from", "enum_be", "secret_be", "challenge_le"} : AIsZero(orv, site))
   \/ AReset
 
